@@ -1,4 +1,5 @@
 import Gedcom.Model.SimilarityRaw
+import Gedcom.Model.Float64
 import Driver.Util
 namespace Driver.SimH
 open Driver
@@ -183,6 +184,25 @@ def handleSimilarity (cmd : String) (rest : List String) : Option String :=
     | [l, r, my] => some <| match parseDateR l, parseDateR r, parseRat my with
       | some l, some r, some my =>
         if my == 0 then "nan" else showRat (dateSimilarity l r my)
+      | _, _, _ => "bad-op"
+    | _ => some "bad-op"
+  | "datesimf" =>
+    -- the float64 value itself, through the binary64 model: DateRange.Years() of both ranges,
+    -- maxYears = float64(n)/float64(d), DateRange.Similarity; answer in lowest terms mant/2^frac
+    match rest with
+    | [l, r, my] => some <| match parseDateR l, parseDateR r, parseNats (my.splitOn "/") with
+      | some (some l), some (some r), some mys =>
+        let m : Option F64.Dbl := match mys with
+          | [n] => if n = 0 then none else some (F64.div (F64.ofNat n) (F64.ofNat 1))
+          | [n, d] => if n = 0 ∨ d = 0 then none else some (F64.div (F64.ofNat n) (F64.ofNat d))
+          | _ => none
+        match m with
+        | some m =>
+          let yl := F64.rangeYears (F64.years l.start) (F64.years l.stop)
+          let yr := F64.rangeYears (F64.years r.start) (F64.years r.stop)
+          let v := F64.normalize (F64.dateSimilarity yl yr m)
+          s!"{v.mant} {v.frac}"
+        | none => "bad-op"
       | _, _, _ => "bad-op"
     | _ => some "bad-op"
   | "datesim-s" =>
